@@ -33,6 +33,10 @@ type c11Case struct {
 	A, Alpha, Beta *core.Entry
 	Mode           core.SynchronizationMode
 	Origin         string
+	// Long cases keep the halted session under observation for longer than the
+	// controller's automatic reconnect interval (controller.go:
+	// autoReconnectInterval = 15 s).
+	Long bool
 }
 
 func (c c11Case) describe() map[string]string {
@@ -198,11 +202,31 @@ func c11Cases(r *vk.Run) []c11Case {
 		}
 		out = append(out, c)
 	}
+	// A few must-halt cases of every kind are repeated with a quiet period
+	// longer than the controller's automatic reconnect interval: a safety halt
+	// has to stay halted, not come back like an ordinary error does.
+	want := map[string]int{"typechange": 3, "deletion": 2, "emptied": 2}
+	if !r.Quick() {
+		want = map[string]int{"typechange": 8, "deletion": 6, "emptied": 6}
+	}
+	pick := r.Rand("c11-long")
+	for _, i := range pick.Perm(len(out)) {
+		c := out[i]
+		if must, why := mustHalt(c.A, c.Alpha, c.Beta, c.Mode); must && want[why] > 0 {
+			want[why]--
+			c.Long, c.Origin = true, "long-quiet"
+			out = append(out, c)
+		}
+	}
 	for i := range out {
 		out[i].Index = i
 	}
 	return out
 }
+
+// longQuietTicks (1 ms heartbeat ticks; n ticks take at least n ms) spans the
+// controller's autoReconnectInterval of 15 s with a margin.
+const longQuietTicks = 17500
 
 func c11() {
 	r := vk.Start("C11", "exploration")
@@ -211,6 +235,7 @@ func c11() {
 	quiet := int64(r.Pick(25, 120))
 	cases := c11Cases(r)
 	r.Note("quiet_period_ticks", quiet)
+	r.Note("long_quiet_period_ticks", longQuietTicks)
 	var printMu sync.Mutex
 	ch := make(chan c11Case)
 	var wg sync.WaitGroup
@@ -230,8 +255,23 @@ func c11() {
 			}
 		}()
 	}
+	// Long cases run beside the pool from the start (they mostly wait).
 	for _, c := range cases {
-		ch <- c
+		if c.Long {
+			wg.Add(1)
+			go func(c c11Case) {
+				defer wg.Done()
+				printMu.Lock()
+				fmt.Printf("case %d %s: A=%s alpha=%s beta=%s mode=%s\n", c.Index, c.Origin, gen.Describe(c.A), gen.Describe(c.Alpha), gen.Describe(c.Beta), c.Mode)
+				printMu.Unlock()
+				r.Guard(c.describe(), func() { c11Run(r, h, hb, longQuietTicks, c) })
+			}(c)
+		}
+	}
+	for _, c := range cases {
+		if !c.Long {
+			ch <- c
+		}
 	}
 	close(ch)
 	wg.Wait()
@@ -245,6 +285,9 @@ func c11() {
 		"controller.go: one-sided-emptying check moved after the transitions -> activity-after-one-sided-emptying (65)",
 		"safety.go: root type change to a directory not detected -> root-type-change-transition, not-halted",
 		"controller.go: run loop does not wait for the user after a safety halt -> not-halted / activity-while-halted",
+		"controller.go: safety halt waits only autoReconnectInterval and then reconnects -> activity-while-halted quiet=longer-than-reconnect-interval (14 violations, the 7 long-quiet cases)",
+		"controller.go: archive not saved in cycles without transitions -> not-halted, activity-in-must-halt-cycle, activity-after-one-sided-emptying (judged against the agreed first-cycle state, no inconclusives)",
+		"safety.go: threshold '< 2' changed to '< 3' -> not-halted / activity-after-one-sided-emptying rule=emptied (54 violations; 27 quick cases have exactly two ancestor entries)",
 	})
 	if r.Counter("halted_cases") == 0 || r.Counter("cases_with_transitions") == 0 {
 		r.Inconclusive("sensor control failed: no halted case or no transition observed")
@@ -262,24 +305,35 @@ func shapeOf(e *core.Entry) string {
 }
 
 func c11Run(r *vk.Run, h *scripted.Harness, hb *scripted.Heartbeat, quiet int64, c c11Case) {
-	ctx, cancel := withBound()
+	ctx, cancel := context.WithTimeout(context.Background(), bound+time.Duration(quiet)*4*time.Millisecond)
 	defer cancel()
-	p, err := h.NewPair(ctx, scripted.PairOptions{Mode: c.Mode, Ancestor: c.A})
+	// The "last synchronized state" of the property is what both sides agreed
+	// on in the completed first cycle (this monitor's shadow c.A), whether or
+	// not the controller managed to record it: a lost archive must show up as
+	// a violation of the property below, not as an inconclusive case.
+	p, err := h.NewPair(ctx, scripted.PairOptions{Mode: c.Mode, Ancestor: c.A, TolerateArchiveMismatch: true})
 	if err != nil {
-		fmt.Printf("case %d: preset failed: %v\n", c.Index, err)
-		r.Inconclusive("preset-cycle-failed")
+		fmt.Printf("case %d: first cycle failed: %v\n", c.Index, err)
+		r.Inconclusive("first-cycle-failed")
 		return
 	}
 	defer p.Close(context.Background())
 	r.Eval(1)
+	if !p.PresetOK {
+		r.Count("archive_differs_from_agreed_state_after_first_cycle", 1)
+	}
 
 	must, why := mustHalt(c.A, c.Alpha, c.Beta, c.Mode)
 	emptied := oneSidedEmptying(c.A, c.Alpha, c.Beta)
 	witness := func(evs []scripted.Event, extra map[string]string) map[string]any {
-		return map[string]any{"case": c.describe(), "must_halt": why, "journal": evs, "extra": extra}
+		return map[string]any{"case": c.describe(), "must_halt": why, "journal": evs, "extra": extra, "archive_after_first_cycle": p.PresetArchive}
 	}
 	sig := func(check string) map[string]string {
-		return map[string]string{"check": check, "mode": c.Mode.String(), "rule": why}
+		m := map[string]string{"check": check, "mode": c.Mode.String(), "rule": why}
+		if c.Long {
+			m["quiet"] = "longer-than-reconnect-interval"
+		}
+		return m
 	}
 
 	evs, ok := p.Cycle(ctx, c.Alpha, c.Beta)
@@ -313,6 +367,13 @@ func c11Run(r *vk.Run, h *scripted.Harness, hb *scripted.Heartbeat, quiet int64,
 	}
 	if emptied && transitions+staging > 0 {
 		r.Violation(sig("activity-after-one-sided-emptying"), fmt.Sprintf("the root (>= 2 entries before) was emptied on one side only, yet %d Transition and %d Stage/Supply calls reached the endpoints", transitions, staging), witness(evs, nil))
+	}
+	if rootKind(c.A) == 'D' && rootKind(c.Alpha) == 'D' && rootKind(c.Beta) == 'D' && (len(c.Alpha.Contents) == 0) != (len(c.Beta.Contents) == 0) {
+		// Threshold of the third clause: two entries must halt, one need not.
+		r.Count(fmt.Sprintf("one_sided_emptying_with_%d_ancestor_entries:halted=%v", len(c.A.Contents), halted), 1)
+	}
+	if c.Long {
+		r.Count("long_quiet_cases:"+why, 1)
 	}
 	if must {
 		r.Count("must_halt_cases:"+why, 1)
